@@ -21,7 +21,7 @@ from vf.core import Reject, check_close, check_equal
 
 RULE = (
   "case = random constrained model (contacts on a plane, connect/weld/joint equalities, limits, frictionloss; dense or sparse; "
-  "optionally sleeping enabled (two-pass collision, compacted solve); nworld 1-2 with different states) + sweep of one capacity (naconmax / njmax / njmax_nnz / nvmax) over {0, need-2..need+1, random}; "
+  "optionally sleeping enabled (two-pass collision, compacted solve); optionally a solver iteration limit of 1-3 (ITERATIONS bit set alongside); nworld 1-2 with different states) + sweep of one capacity (naconmax / njmax / njmax_nnz / nvmax) over {0, need-2..need+1, random}; "
   "evaluation = one (resource, capacity) step compared with the ample-capacity run; non-trivial = capacity in {need-1, need} for a "
   "resource whose need > 0; distinct by sha1(case, resource, capacity)"
 )
@@ -61,6 +61,8 @@ def strategy(tier):
       resource=st.sampled_from(["njmax", "njmax", "nacon", "nnz", "nvmax"]),
       sleep=st.sampled_from([False, False, True]),
       extra_caps=st.lists(st.integers(0, 40), min_size=0, max_size=2),
+      # solver iteration limit: with 1-3 iterations the solve usually stops unconverged, so the ITERATIONS report and a capacity bit have to coexist in one overflow word
+      iterations=st.sampled_from([None, None, 1, 2, 3]),
     )
   )
 
@@ -68,6 +70,8 @@ def strategy(tier):
 def _build(case):
   cfg = dict(case["cfg"])
   cfg["option"] = dict(jacobian=case["jacobian"], cone=case["cone"], solver=case["solver"])
+  if case.get("iterations"):
+    cfg["option"]["iterations"] = int(case["iterations"])
   if case.get("sleep") or case["resource"] == "nvmax":
     # sleeping (compacted active-dof solve, two-pass collision) requires the Newton solver
     cfg["option"].update(solver="Newton", flags=dict(sleep="enable"))
@@ -154,7 +158,7 @@ def check(case, rec):
     need = max(need_nv)
   else:
     need = max(need_nnz)
-  rec.cls(f"sleep:{sleeping}", f"resource:{resource}", "sparse" if sparse else "dense", f"need0:{need == 0}", f"nworld:{nworld}")
+  rec.cls(f"iterlimit:{case.get('iterations')}", f"sleep:{sleeping}", f"resource:{resource}", "sparse" if sparse else "dense", f"need0:{need == 0}", f"nworld:{nworld}")
   if need == 0:
     caps = [0, 1]
   else:
